@@ -44,10 +44,13 @@ pub enum TrkEv {
 
 pub fn tid_of(task: &dyn KeyObj) -> Tid {
   if let Some(t) = task.as_any().downcast_ref::<VTask>() { return t.0; }
+  // a resource where a task is expected: not ours to crash on; keep it visible in the stream (C17 compares streams)
+  if let Some(r) = task.as_any().downcast_ref::<VRes>() { return 200 + r.0; }
   panic!("HARNESS-BUG: tracker got a task of unknown type: {:?}", task);
 }
 pub fn rid_of(resource: &dyn KeyObj) -> Rid {
   if let Some(r) = resource.as_any().downcast_ref::<VRes>() { return r.0; }
+  if let Some(t) = resource.as_any().downcast_ref::<VTask>() { return 200 + t.0; }
   panic!("HARNESS-BUG: tracker got a resource of unknown type: {:?}", resource);
 }
 pub fn oc_of(checker: &dyn ValueObj) -> OC {
